@@ -10,6 +10,7 @@ import Biogo.Spec.Morass
 import Biogo.Proofs.MorassConc
 import Biogo.Proofs.MorassCycle
 import Biogo.Proofs.MorassHistory
+import Biogo.Proofs.MorassReject
 import Biogo.Properties.C11
 
 namespace Biogo.Properties.C12_history
@@ -75,6 +76,25 @@ theorem conc_history_schedule_independent (c : Nat) (hc : 1 ≤ c) (ac acl : Boo
   have keyed := @Biogo.Properties.C11.historySpec_keyed ac
   rw [keyed h _ (conc_history_sorted_multiset c hc conc₁ ac acl h hwf hr₁ hfin₁),
       keyed h _ (conc_history_sorted_multiset c hc conc₂ ac acl h hwf hr₂ hfin₂)]
+
+/-- **A rejected Push is a no-op of the history, whatever the interleaving** (no fault; with a
+    fault: `C13_history.history_rejected_push_noop`).  A program whose accepted calls are the
+    well-formed history `h`, with `Push` calls of values of another type inserted anywhere — when
+    the chunk is exactly full, right before `Finalise`, between the pulls: no rejected call spawns
+    a writer or hands a chunk over (`reach_erase`: after erasing the rejected calls and their
+    outputs every reachable state is one of the program without them), and when the caller has
+    returned from its last call the outputs of the accepted calls satisfy `HistorySpec ac h`. -/
+theorem conc_history_rejected_push_noop (c : Nat) (hc : 1 ≤ c) (conc ac acl : Bool) (h : List Cycle)
+    (hwf : wellFormed ac h = true) (ops : List Op) (hops : dropRejects ops = histOps h)
+    {s : CState} (hr : Reach (sys conc c ac acl ops none) s) (hfin : finished s = true) :
+    HistorySpec ac h (dropRejOuts s.outs.reverse) := by
+  have hr' := reach_erase hr
+  rw [hops] at hr'
+  have hspec := conc_history_sorted_multiset c hc conc ac acl h hwf hr' (finished_erase hfin)
+  have e : (erase s).outs.reverse = dropRejOuts s.outs.reverse := by
+    show (dropRejOuts s.outs).reverse = _
+    simp [dropRejOuts, List.filter_reverse]
+  rw [← e]; exact hspec
 
 /-- non-vacuity: a two-cycle history (chunk 1; cycle 1 pushes 2 1, pulls one value, clears;
     cycle 2 pushes 4 3 and drains) under a schedule that interleaves the background writer of
